@@ -26,6 +26,11 @@ CLAIMED = {
   "Mvs.tla defines Want (max version over all nodes reachable from the target) and checks that every visiting order of the traversal reaches it without tripping Graph.Require's panics; every graph TLC generates (exhaustive 3 modules x 2 versions, seeded RandomSubset samples up to 8x4 with cycles and older main-module requirements) is fed to the real mvs.BuildList/Req with shuffled lists and random latency and compared with Want (sufficient, minimal, nothing unreachable, main first, no module visited twice, Req minimal). ParWork.tla model-checks the work-set protocol (at most once, return only when drained, no lost wake-up, termination under fairness) and the hook events of real BuildList runs (10 runners) are validated against it with the scalar state (len(todo), waiting) compared at every event. Semver.tla gives a precedence rank to 1099 structured versions; every pair is compared with semver.Compare and module.Versions.Max, plus validity/canonical form.",
   "trusted: TLC, the Want definition, rendering of versions/graphs; canaries (early return, double pick, wrong waiting count) must be rejected each run",
   "DESIGN.md §3 C14"),
+ "C19": ("model_checking",
+  "TLA+ spec SharedRuntime.tla (label-index protocol model-checked exhaustively; shared value as an object with immutable abstract state); TLC -simulate call/return schedules executed under the race detector and the recorded histories validated by TLC (SharedRuntimeTrace.tla)",
+  "The label index double-check protocol (RLock read, Lock re-read, append) is model-checked for 3 goroutines x 2 keys (injective, inverse map, append-only, own index, termination). TLC -simulate generates call/return interleavings (program, evaluated or not, 2-8 goroutines, 40 calls over 16 methods); each is executed in a child built with -race on one shared value or one context per goroutine; the history (every return digest, sequential baseline from a fresh context, answers recomputed afterwards, label-index pairs) is validated by TLC: every return equals the sequential answer, the value is unchanged, the label index is one injective map. A race-detector report, panic or hang of the child is a violation.",
+  "trusted: TLC, Go race detector, digests of method results; goroutine interleavings inside overlapping calls are sampled, not enumerated; canaries (wrong answer, changed value) must be rejected",
+  "DESIGN.md §3 C19"),
 }
 
 NOT_YET = "check not built yet in this round (see DESIGN.md §8 for the order of construction)"
